@@ -111,12 +111,24 @@ def hirom():
 BUILTIN = {"low_rom": lorom, "high_rom": hirom}
 
 
-def map_line(ident, banks, size, ram=False, mirror=None):
-    """Render one `.map` source line for this declaration."""
-    win = "0x8000, 0xffff" if size == 0x8000 else "0x0000, 0xffff"
-    s = f".map identifier={ident} bank_range=0x{banks[0]:02x}, 0x{banks[1]:02x} addr_range={win} mask=0x{size:x}"
+def map_line(ident, banks, size, ram=False, mirror=None, style="hex"):
+    """Render one `.map` source line for this declaration. style: how numbers are spelled (hex, dec, bin, HEX, mixed)."""
+    def n(v, width=2):
+        if style == "dec":
+            return str(v)
+        if style == "bin":
+            return bin(v)
+        if style == "HEX":
+            return "0x" + f"{v:0{width}X}"
+        if style == "mixed":
+            return str(v) if v % 2 else f"0x{v:0{width}x}"
+        return f"0x{v:0{width}x}"
+
+    lo = 0x8000 if size == 0x8000 else 0
+    win = f"{n(lo, 4)}, {n(0xffff, 4)}"
+    s = f".map identifier={ident} bank_range={n(banks[0])}, {n(banks[1])} addr_range={win} mask={n(size, 1)}"
     if mirror:
-        s += f" mirror_bank_range=0x{mirror[0]:02x}, 0x{mirror[1]:02x}"
+        s += f" mirror_bank_range={n(mirror[0])}, {n(mirror[1])}"
     if ram:
         s += " writable=1"
     return s
